@@ -521,6 +521,61 @@ func main() {
 			t.Note(fmt.Sprintf("%d compressed sources: the library writer's own outputs, python zlib at levels 0/1/6/9 sync-flushed after each part, harness-encoded stored blocks at every split, fixed-Huffman blocks, BFINAL+empty block; 11 delivery modes + a cut at every position for streams <=64 bytes", len(srcs)))
 		})
 
+		// One Reader serves many messages (Reset between them). However the previous message
+		// was left - read to its end, read in part, not read at all, corrupt - and whatever kind of
+		// source it came from, the next message reads back exactly.
+		r.Part("E2c-reader-reused-across-messages", func(t *explore.T) {
+			compress := func(p []byte) []byte {
+				var b bytes.Buffer
+				w := wsflate.NewWriter(&b, compressors()[1].mk)
+				w.Write(p)
+				w.Flush()
+				return b.Bytes()
+			}
+			firsts := []payload{{"hello", []byte("hello")}, {"600xab", []byte(strings.Repeat("ab", 600))}, {"40000-patterned", payloads(true)[6].data}, {"empty", nil}}
+			seconds := []payload{{"a", []byte("a")}, {"3000-bytes", lcg(3000, 5)}, {"empty", nil}}
+			kinds := []delivery{deliveries(false)[0], deliveries(false)[13], deliveries(false)[14]} // bytes.Reader, chunked byte reader, chunked plain reader
+			for _, f := range firsts {
+				fc := compress(f.data)
+				for _, how := range []string{"read-all", "read-1-byte", "read-half", "not-read", "corrupt"} {
+					for _, k1 := range kinds {
+						for _, k2 := range kinds {
+							for _, sec := range seconds {
+								f, how, k1, k2, sec := f, how, k1, k2, sec
+								t.Do(func() string {
+									return fmt.Sprintf("first=%s from %s (%s); Reset; second=%s from %s", f.name, k1.name, how, sec.name, k2.name)
+								}, func() *explore.Fail {
+									src := fc
+									if how == "corrupt" {
+										src = append([]byte{0x07, 0xff, 0xff}, fc...)
+									}
+									rd := wsflate.NewReader(k1.mk(src), newDecomp)
+									switch how {
+									case "read-all", "corrupt":
+										io.Copy(io.Discard, rd)
+									case "read-1-byte":
+										rd.Read(make([]byte, 1))
+									case "read-half":
+										io.CopyN(io.Discard, rd, int64(len(f.data)/2))
+									}
+									rd.Reset(k2.mk(compress(sec.data)))
+									got, err := io.ReadAll(rd)
+									if err != nil {
+										return explore.Failf("reused-reader-error", "%v (got %d of %d bytes)", err, len(got), len(sec.data))
+									}
+									if !bytes.Equal(got, sec.data) {
+										return explore.Failf("reused-reader-output-differs", "got %d bytes want %d", len(got), len(sec.data))
+									}
+									return nil
+								})
+							}
+						}
+					}
+				}
+			}
+			t.Outcome("exact")
+		})
+
 		r.Part("E3-frame-helpers", func(t *explore.T) {
 			for _, p := range payloads(false) {
 				for fin := 0; fin < 2; fin++ {
